@@ -172,7 +172,10 @@ pub fn run_stage(check: &'static dyn Check, tier: Tier, seed: u64, workdir: &Pat
     let prop = check.id();
     let families = check.families(tier);
     let case_timeout = check.case_timeout();
+    // VCHECK_FUZZ_SCALE multiplies the number of runs per job (long campaigns outside the registered tiers)
+    let scale: u64 = std::env::var("VCHECK_FUZZ_SCALE").ok().and_then(|s| s.parse().ok()).unwrap_or(1).max(1);
     for (fname, runs) in plan {
+        let runs = runs * scale;
         let Some(fam) = families.iter().find(|f| f.name == fname) else { continue };
         let Gen::Bytes { max_len, .. } = fam.gen else { continue };
         let fdir = workdir.join(format!("fuzz-{fname}"));
@@ -224,7 +227,7 @@ pub fn run_stage(check: &'static dyn Check, tier: Tier, seed: u64, workdir: &Pat
             }
         }
         // generous overall bound: the campaign is bounded by -runs, this only catches a wedged job
-        let deadline = Instant::now() + Duration::from_secs(3600);
+        let deadline = Instant::now() + Duration::from_secs(3600 * scale.min(6));
         let (mut execs, mut cov, mut ft, mut corp) = (0u64, 0u64, 0u64, 0u64);
         let mut artifacts: Vec<(PathBuf, String)> = Vec::new();
         for (job, jdir, mut c) in children {
